@@ -18,6 +18,7 @@ pub mod c14;
 pub mod c15;
 pub mod c16;
 pub mod c19;
+pub mod c20;
 
 pub fn get(id: &str) -> Option<PropertyDef> {
     match id {
@@ -38,6 +39,7 @@ pub fn get(id: &str) -> Option<PropertyDef> {
         "C15" => Some(c15::def()),
         "C16" => Some(c16::def()),
         "C19" => Some(c19::def()),
+        "C20" => Some(c20::def()),
         _ => None,
     }
 }
